@@ -21,7 +21,7 @@ RULE = ("Hypothesis: schema-consistent graphs (schema drawn first: per (class, p
         "profiler); (3) twin run with the mode off: 100 % constraints identical, relaxed ones carry the original cardinality.  "
         "Non-trivial: >=1 constraint relaxed to '?'/'*' and >=1 shape reference followed; distinct by SHA-1 of the case.")
 ASSUMPTIONS = c01.ASSUMPTIONS + ["vf/shexval.py implements ShEx conformance for the emitted subset (EachOf of triple constraints, node kinds, datatypes, value sets, shape references)"]
-BUDGET = {"quick": {"examples": 12000, "wall": 150}, "thorough": {"examples": 600000, "wall": 5400}}
+BUDGET = {"quick": {"examples": 12000, "wall": 150}, "thorough": {"examples": 300000, "wall": 900}}
 FLOORS = {"nontrivial": 0.12, "relaxed": 0.3, "ref-followed": 0.2}
 
 
